@@ -16,7 +16,8 @@
     * `datetime.timedelta` restricted to whole seconds = `TD` (`days`, `seconds`) with CPython's
       normal form `0 <= seconds < 86400`; the constructor normalisation is `TD.norm`.  The range
       limit of `timedelta` (|days| <= 999 999 999, OverflowError) is not modelled.
-    * `datetime.date` / `datetime.datetime` are read-only records of ints (`PyDate`, `PyDateTime`).
+    * `datetime.date` / `datetime.datetime` / `datetime.time` are records of ints (`PyDate`,
+      `PyDateTime`, `PyTime`); their range-checking constructors are in ICal/Model/PyRTDec.lean.
 
   Import-free except ICal.Model.PyStr: this file is linked into the native driver.
 -/
@@ -126,5 +127,65 @@ structure PyDateTime where
   minute : Int
   second : Int
 deriving DecidableEq, Repr, Inhabited
+
+structure PyTime where
+  hour : Int
+  minute : Int
+  second : Int
+deriving DecidableEq, Repr, Inhabited
+
+/-! ## wave 2: exceptions, slicing, `None`, regex match objects (used by the decoder bodies)
+
+  A function that can raise is translated into `Py α = Except Exc α`.  Exceptions originate only in
+  the partial runtime functions (`int(str)`, `date(...)`, `time(...)`, `datetime(...)`,
+  `match.groups()` on `None`) and in `raise ValueError(...)`.
+  `try: BODY except <classes>: raise ValueError(...)` is `remap <classes> BODY`. -/
+
+inductive Exc where
+  | valueError
+  | overflowError
+  | keyError
+  | indexError
+  | attributeError
+  | typeError
+deriving DecidableEq, Repr, Inhabited
+
+abbrev Py (α : Type) := Except Exc α
+
+/-- `except (<classes>): raise ValueError(...)` around a computation -/
+def remap {α : Type} (catches : List Exc) : Py α → Py α
+  | .ok v => .ok v
+  | .error e => if catches.contains e then .error .valueError else .error e
+
+/-- `except Exception:` / bare `except:` : every exception of the subset is caught -/
+def remapAll {α : Type} : Py α → Py α
+  | .ok v => .ok v
+  | .error _ => .error .valueError
+
+/-- `s[a:b]`, `s[a:]`, `s[:b]` for literal `0 ≤ a`, `0 ≤ b` (never raises) -/
+def pySlice (s : Str) (a b : Nat) : Str := (s.drop a).take (b - a)
+def pySliceFrom (s : Str) (a : Nat) : Str := s.drop a
+def pySliceTo (s : Str) (b : Nat) : Str := s.take b
+
+/-- `len(s)` -/
+def strLen (s : Str) : Int := (s.length : Int)
+
+/-- `None` is `()`; it is false -/
+instance : Truthy Unit := ⟨fun _ => false⟩
+/-- a `str` or `None` (a regex group that may not have taken part): `None` and `''` are false -/
+instance : Truthy (Option Str) := ⟨fun o => match o with | none => false | some s => !s.isEmpty⟩
+
+/-- `m.groups()` where `m` is the result of `REGEX.match(..)` (`None` = no match: AttributeError) -/
+def groupsOf {α : Type} : Option α → Py α
+  | some g => .ok g
+  | none => .error .attributeError
+
+/-- `a <= b` on timedeltas (tuple comparison, as `TD.lt`) -/
+def TD.le (a b : TD) : Bool :=
+  decide (a.days < b.days) || (decide (a.days = b.days) && decide (a.seconds ≤ b.seconds))
+
+/-- `timedelta(weeks=w, days=d, hours=h, minutes=m, seconds=s)` on ints (absent keywords are 0).
+    CPython sums exactly and normalises; the range limit (OverflowError) is not modelled. -/
+def TD.ofUnits (w d h m s : Int) : TD := TD.norm (w * 7 + d) (h * 3600 + m * 60 + s)
 
 end ICal.PyRT
